@@ -12,13 +12,30 @@ def _filter_dead_code(nodes: Iterable[ast.stmt]) -> list[ast.stmt]:
     """Return a list of body nodes, trimming out unreachable code (any
     statements appearing after `break`, `continue`, `raise`, and `return`
     nodes)."""
-    new_nodes: list[ast.stmt] = []
-    for node in nodes:
+    all_nodes = list(nodes)
+    for i, node in enumerate(all_nodes):
         if isinstance(node, (ast.Break, ast.Continue, ast.Raise, ast.Return)):
-            new_nodes.append(node)
-            break
-        new_nodes.append(node)
-    return new_nodes
+            # An unreachable `yield` still makes the enclosing function a generator
+            if _contains_yield(all_nodes[i + 1 :]):
+                return all_nodes
+            return all_nodes[: i + 1]
+    return all_nodes
+
+
+def _contains_yield(nodes: Iterable[ast.AST]) -> bool:
+    """Return True if any of `nodes` contains a `yield` of the function the nodes
+    belong to (rather than of a function or class nested in them)."""
+    stack = list(nodes)
+    while stack:
+        node = stack.pop()
+        if isinstance(node, (ast.Yield, ast.YieldFrom)):
+            return True
+        if isinstance(
+            node, (ast.FunctionDef, ast.AsyncFunctionDef, ast.Lambda, ast.ClassDef)
+        ):
+            continue
+        stack.extend(ast.iter_child_nodes(node))
+    return False
 
 
 def _is_non_singleton_literal(arg: ast.expr) -> bool:
